@@ -702,6 +702,39 @@ def second_opinion(uname, unit_path, meta, keys, P, vnames=None):
     return out
 
 
+def sensitivity_selftest(pid):
+    import glob
+    import tempfile
+    out = []
+    for d in sorted(glob.glob(os.path.join(VERIF, 'seeded', pid + '_*'))) + sorted(glob.glob(os.path.join(VERIF, 'seeded2', pid + '_*'))):
+        patch = os.path.join(d, 'patch.diff')
+        if not os.path.exists(patch):
+            continue
+        try:
+            conf = json.load(open(os.path.join(d, 'confirm.json'))).get('confirmed')
+        except Exception:
+            conf = None
+        scratch = tempfile.mkdtemp(prefix='verif-sens-', dir='/var/tmp')
+        try:
+            subprocess.run(['rsync', '-a', '--exclude', 'target', '--exclude', '.git', REPO.rstrip('/') + '/', scratch + '/'], check=True)
+            pr = subprocess.run(['patch', '-p1', '-s', '-i', patch], cwd=scratch, capture_output=True, text=True)
+            if pr.returncode != 0:
+                out.append(dict(seed=os.path.basename(d), verdict='patch does not apply to the current tree'))
+                continue
+            env = dict(os.environ, VERIF_REPO=scratch, VERIF_OUT=os.path.join(scratch, '_out'), VERIF_SENSITIVITY_CHILD='1')
+            pr = subprocess.run([os.path.join(VERIF, 'check'), pid, '--tier', 'quick'], capture_output=True, text=True, env=env, timeout=3600)
+            lines = [l for l in pr.stdout.split('\n') if re.match(r'(OK|VIOLATION|UNDECIDED)', l)]
+            out.append(dict(seed=os.path.basename(d), confirmed=conf, verdict=(lines[0].split()[0] if lines else 'ERROR'), line=(lines[0][:300] if lines else pr.stdout[-200:])))
+        except Exception as e:
+            out.append(dict(seed=os.path.basename(d), verdict='error: %s' % e))
+        finally:
+            shutil.rmtree(scratch, ignore_errors=True)
+    return dict(seeds=out, caught=sum(1 for o in out if o.get('verdict') == 'VIOLATION'), total=len(out),
+                note='independent seeded changes (see seeded/*/meta.json); VIOLATION = caught, UNDECIDED = not decided (exit 2), OK = missed')
+
+
+
+
 def concrete_fallback(pid, seed, ev, undecided):
     """The verifier could not decide: a concrete failing input on the real code still is a violation (never the other way round)."""
     cov = ev['coverage']
